@@ -165,7 +165,9 @@ class Library:
     @property
     def strings(self) -> List[String]:
         """All @string blocks in the library, preserving order of insertion."""
-        return list(self._strings_by_key.values())
+        # Note: Taken from the blocks (as `entries`), as the dict does not preserve the block order
+        #   e.g. in cases where `replace` has been called.
+        return [b for b in self._blocks if isinstance(b, String)]
 
     @property
     def strings_dict(self) -> Dict[str, String]:
